@@ -36,6 +36,9 @@ I1 = "integer :: iCnt\nchkC: if (iCnt == 1) then\n  iCnt = 2\nend if wrongN\nend
 I2 = "program progMain\n  real :: sin2(3)\n  xPos = sin()\nend program progMain\n"           # InternalSyntaxError path
 I3 = "module modAlpha\n  real :: sin(3), cos(3)\ncontains\n  subroutine subOne()\n    @@@ bad\n  end subroutine subOne\nend module modAlpha\n"
 I4 = "program progMain\n  real :: cos(4)\n  loopA: do iCnt = 1, 3\n    yVal = 1.0\n  end do loopB\nend program progMain\n"
+# a failing NESTED unit that bears the name of a top-level unit of V1 (its table must be removed from its own parent,
+# not from the list of top-level tables)
+I5 = "module modBeta\ncontains\n  subroutine modAlpha()\n    @@@ bad\n  end subroutine modAlpha\nend module modBeta\n"
 # invalid source with a COMPLETED unit before the failing one (known finding F4c)
 IK = "module modAlpha\n  real :: sin(3)\nend module modAlpha\nsubroutine subTwo()\n  @@@ bad\nend subroutine subTwo\n"
 X1 = """module modAlpha
@@ -132,7 +135,7 @@ program progMain
   error stop
 end program progMain
 """
-SOURCES = dict(V1=V1, V2=V2, V3=V3, V4=V4, V5=V5_08, I1=I1, I2=I2, I3=I3, I4=I4, IK=IK, X1=X1, X2=X2, X3=X3_08, X4=X4)
+SOURCES = dict(V1=V1, V2=V2, V3=V3, V4=V4, V5=V5_08, I1=I1, I2=I2, I3=I3, I4=I4, I5=I5, IK=IK, X1=X1, X2=X2, X3=X3_08, X4=X4)
 
 
 class _Sources(dict):
@@ -233,7 +236,7 @@ def fresh_references(keys):
 
 def histories(ctx):
     alpha = [("create", "f2003"), ("create", "f2008"), ("parse", "V1"), ("parse", "V2"), ("parse", "V3"),
-             ("parse", "I1"), ("parse", "I2"), ("parse", "I3"), ("parse", "I4")]
+             ("parse", "I1"), ("parse", "I2"), ("parse", "I3"), ("parse", "I4"), ("parse", "I5")]
     maxlen = ctx.n(2, 3)
     hs = [()]
     for n in range(1, maxlen + 1):
@@ -317,8 +320,11 @@ def run(ctx):
                              dict(rep, observed=r["final"][:2], expected=ref[:2])))
         for nm, what in r["leaks"]:
             nfail_parse += 1
-            if nm.startswith("removes_preexisting_table:"):
+            if nm == "removes_preexisting_table:I3":
+                # recorded finding: the failing top-level unit of I3 has the name of the table it removes
                 failures.append(("failed_parse_removes_preexisting_table_of_same_name", what, rep))
+            elif nm.startswith("removes_preexisting_table:"):
+                failures.append(("failed_parse_removes_unrelated_table:" + nm.split(":", 1)[1], what, rep))
             else:
                 failures.append(("failed_parse_leaves_state:" + nm, what, rep))
     # known-finding stream (kept apart so that it cannot mask anything else)
